@@ -6,6 +6,7 @@ pub mod c07;
 pub mod c09;
 pub mod c10;
 pub mod c17;
+pub mod c18;
 
 use crate::core::Report;
 
@@ -19,6 +20,7 @@ pub fn dispatch(p: &str, rep: &mut Report) -> bool {
         "C09" => c09::run(rep),
         "C10" => c10::run(rep),
         "C17" => c17::run(rep),
+        "C18" => c18::run(rep),
         _ => return false,
     }
     true
